@@ -197,3 +197,17 @@ func VerifHandleError(kind string, code, subcode uint8, out bool) (bool, time.Du
 
 // VerifFSMStateName exposes fsmState.String for trace parsing.
 func VerifFSMStateName(s uint8) string { return fsmState(s).String() }
+
+// VerifBitmap sets the given attribute codes in a fresh attrsBitmap and reports
+// isSet for every query.
+func VerifBitmap(sets []uint8, queries []uint8) []bool {
+	var a attrsBitmap
+	for _, b := range sets {
+		a.set(b)
+	}
+	out := make([]bool, len(queries))
+	for i, q := range queries {
+		out[i] = a.isSet(q)
+	}
+	return out
+}
